@@ -7,19 +7,20 @@ For the system of `Model/HubMulti` (each client: one List, then one request per 
 listed hash as `expected`; any schedule):
 
 * `step_lands`: every request leaves the client's bytes on the hub — at the path, or at the
-  conflict-copy name next to it — or was skipped because the client's listing showed exactly those bytes' hash;
+  conflict-copy name the hub picked — or was skipped because the client's listing showed exactly those bytes' hash;
 * `step_overwrites_only_listed`: a request never replaces content its client had not listed: what
   was at the path is replaced only if its hash is the one the client listed there (a commit by
-  compare-and-swap), and a conflict-copy name is only ever rewritten with content of the same hash;
-  every other path is untouched;
-* `run_ccInv` / `run_steps_safe`: the two facts hold at EVERY step of EVERY schedule, from every
-  state in which conflict-copy names hold content of their hash and no client's local path is a
-  conflict-copy name.
+  compare-and-swap), a conflict-copy lands on a free name or on content of the same hash (`CFree`, what
+  the repaired hub guarantees: D13), and every other path is untouched;
+* `run_steps_safe`: this holds at EVERY step of EVERY schedule, from EVERY state — no hypothesis on
+  the hub tree or on the clients' paths. (Before the D13 repair the statement needed "no client's path
+  is a conflict-copy name and every such name holds content of its hash" — the hypothesis that pointed
+  at the defect.)
 
 Together: whatever the interleaving, every local file is retrievable right after its request, and
 what any client committed is replaced afterwards only by a client that had seen it (no blind
 overwrite) — the non-zero-exit clause of the property. That the hub executes each request atomically
-is C03; the real client is tied by the stale-listing and multi-client runs of `./check C13`.
+is C03; the real client and hub are tied by the runs of `./check C13`, each replayed as a schedule of this model.
 -/
 namespace Copia.C13
 open Copia.Hub Copia.HubSync Copia.HubMulti
@@ -27,10 +28,10 @@ open Copia.Hub Copia.HubSync Copia.HubMulti
 variable {H : Type} [DecidableEq H]
 
 /-- every request lands the client's bytes, or was skipped on the listing's word -/
-theorem step_lands (hash : Bytes → H) (cname : Key → H → Key) (s : Sys H) (i : Nat)
+theorem step_lands (hash : Bytes → H) (cname : HTree → Key → H → Key) (s : Sys H) (i : Nat)
     (l : Key → Option H) (k : Key) (c : Bytes) (rest : List (Key × Bytes))
     (hl : (s.clients i).listing = some l) (hf : (s.clients i).files = (k, c) :: rest) :
-    hget (step hash cname s i).hub k = some c ∨ hget (step hash cname s i).hub (cname k (hash c)) = some c ∨
+    hget (step hash cname s i).hub k = some c ∨ hget (step hash cname s i).hub (cname s.hub k (hash c)) = some c ∨
     (l k = some (hash c) ∧ (step hash cname s i).hub = s.hub) := by
   unfold step
   simp only [hl, hf, syncFile]
@@ -41,13 +42,12 @@ theorem step_lands (hash : Bytes → H) (cname : Key → H → Key) (s : Sys H) 
     · left; split <;> exact h
     · right; left; split <;> exact h
 
-/-- a request replaces only what its client had listed -/
-theorem step_overwrites_only_listed (hash : Bytes → H) (cname : Key → H → Key) (s : Sys H) (i : Nat)
-    (q : Key) (c0 : Bytes) (h : hget s.hub q = some c0) :
+/-- a request replaces only what its client had listed; a conflict copy lands on nothing, or on the same hash -/
+theorem step_overwrites_only_listed (hash : Bytes → H) (cname : HTree → Key → H → Key) (cfree : CFree hash cname)
+    (s : Sys H) (i : Nat) (q : Key) (c0 : Bytes) (h : hget s.hub q = some c0) :
     hget (step hash cname s i).hub q = some c0 ∨
-    ∃ l k c rest, (s.clients i).listing = some l ∧ (s.clients i).files = (k, c) :: rest ∧
-      ((q = k ∧ l k = some (hash c0) ∧ hget (step hash cname s i).hub k = some c) ∨
-       (q = cname k (hash c) ∧ hget (step hash cname s i).hub q = some c)) := by
+    (∃ l, (s.clients i).listing = some l ∧ l q = some (hash c0)) ∨
+    (∃ c, hget (step hash cname s i).hub q = some c ∧ hash c = hash c0) := by
   unfold step
   cases hl : (s.clients i).listing with
   | none => left; simpa [hl] using h
@@ -62,111 +62,36 @@ theorem step_overwrites_only_listed (hash : Bytes → H) (cname : Key → H → 
       · simp only [he, if_false]
         unfold casPut
         by_cases hcur : (hget s.hub k).map hash = l k
-        · -- commit at k
-          simp only [hcur, if_true]
+        · simp only [hcur, if_true]
           by_cases hq : q = k
-          · right
-            refine ⟨l, k, c, rest, rfl, rfl, Or.inl ⟨hq, ?_, by simp [hget_hins]⟩⟩
-            rw [← hcur, ← hq, h]; rfl
+          · right; left
+            refine ⟨l, rfl, ?_⟩
+            rw [hq, ← hcur, ← hq, h]; rfl
           · left; simp [hget_hins, hq, h]
         · simp only [hcur, if_false]
-          by_cases hq : q = cname k (hash c)
-          · right
-            exact ⟨l, k, c, rest, rfl, rfl, Or.inr ⟨hq, by simp [hget_hins, hq]⟩⟩
+          by_cases hq : q = cname s.hub k (hash c)
+          · right; right
+            refine ⟨c, by simp [hget_hins, hq], ?_⟩
+            rcases cfree s.hub k (hash c) with e | e
+            · rw [← hq, h] at e; cases e
+            · rw [← hq, h] at e; exact (Option.some.inj e).symm
           · left; simp [hget_hins, hq, h]
 
-/-- conflict-copy names keep holding content of their hash, provided no local path of the stepping client is such a name -/
-theorem step_ccInv (hash : Bytes → H) (cname : Key → H → Key)
-    (cinj : ∀ k h k' h', cname k h = cname k' h' → h = h')
-    (s : Sys H) (i : Nat) (inv : CCInv hash cname s.hub)
-    (hnp : ∀ f ∈ (s.clients i).files, ∀ k h, f.1 ≠ cname k h) :
-    CCInv hash cname (step hash cname s i).hub := by
-  unfold step
-  cases hl : (s.clients i).listing with
-  | none => simpa [hl] using inv
-  | some l =>
-    cases hf : (s.clients i).files with
-    | nil => simpa [hl, hf] using inv
-    | cons f rest =>
-      obtain ⟨k, c⟩ := f
-      have hk : ∀ k' h', k ≠ cname k' h' := hnp (k, c) (by rw [hf]; simp)
-      simp only [syncFile]
-      by_cases he : l k = some (hash c)
-      · simpa [he] using inv
-      · simp only [he, if_false]
-        unfold casPut
-        intro k' h' c'
-        split
-        · split <;> (simp only [hget_hins]; split)
-          all_goals first
-            | (next e => exact absurd e.symm (hk k' h'))
-            | (intro hh; exact inv k' h' c' hh)
-        · split <;> (simp only [hget_hins]; split)
-          all_goals first
-            | (next e => intro hh; cases hh; exact (cinj _ _ _ _ e).symm ▸ rfl)
-            | (intro hh; exact inv k' h' c' hh)
-
-/-- the remaining local paths of every client only shrink -/
-theorem step_files_subset (hash : Bytes → H) (cname : Key → H → Key) (s : Sys H) (i j : Nat) :
-    ∀ f ∈ ((step hash cname s i).clients j).files, f ∈ (s.clients j).files := by
-  intro f hm
-  unfold step at hm
-  cases hl : (s.clients i).listing with
-  | none =>
-    simp only [hl, updC] at hm
-    split at hm
-    · next e => subst e; exact hm
-    · exact hm
-  | some l =>
-    cases hf : (s.clients i).files with
-    | nil => simpa [hl, hf] using hm
-    | cons g rest =>
-      simp only [hl, hf, updC] at hm
-      split at hm
-      · next e => subst e; rw [hf]; exact List.mem_cons_of_mem _ hm
-      · exact hm
-
-/-- C13 (every schedule): the conflict-copy invariant holds after any schedule -/
-theorem run_ccInv (hash : Bytes → H) (cname : Key → H → Key)
-    (cinj : ∀ k h k' h', cname k h = cname k' h' → h = h') :
-    ∀ (sched : List Nat) (s : Sys H), CCInv hash cname s.hub →
-      (∀ j, ∀ f ∈ (s.clients j).files, ∀ k h, f.1 ≠ cname k h) →
-      CCInv hash cname (run hash cname s sched).hub ∧
-      (∀ j, ∀ f ∈ ((run hash cname s sched).clients j).files, ∀ k h, f.1 ≠ cname k h) := by
-  intro sched
-  induction sched with
-  | nil => intro s h1 h2; exact ⟨h1, h2⟩
-  | cons i rest ih =>
-    intro s h1 h2
-    simp only [run, List.foldl_cons]
-    exact ih (step hash cname s i) (step_ccInv hash cname cinj s i h1 (h2 i))
-      (fun j f hm => h2 j f (step_files_subset hash cname s i j f hm))
-
-/-- C13 (every schedule, every step): from a state satisfying the conflict-copy invariant, at EVERY
-step of EVERY schedule content on the hub is either kept, or replaced at its path by a client that
-had listed exactly its hash there, or — at a conflict-copy name — rewritten with content of the same hash. -/
-theorem run_steps_safe (hash : Bytes → H) (cname : Key → H → Key)
-    (cinj : ∀ k h k' h', cname k h = cname k' h' → h = h')
-    (s : Sys H) (hcc : CCInv hash cname s.hub) (hnp : ∀ j, ∀ f ∈ (s.clients j).files, ∀ k h, f.1 ≠ cname k h)
-    (pre : List Nat) (i : Nat) (q : Key) (c0 : Bytes)
+/-- C13 (every schedule, every step, every state): content on the hub is kept, or replaced at its path
+by a client that had listed exactly its hash there, or — a conflict-copy name — rewritten with content of the same hash. -/
+theorem run_steps_safe (hash : Bytes → H) (cname : HTree → Key → H → Key) (cfree : CFree hash cname)
+    (s : Sys H) (pre : List Nat) (i : Nat) (q : Key) (c0 : Bytes)
     (h : hget (run hash cname s pre).hub q = some c0) :
     let t := run hash cname s pre
     hget (step hash cname t i).hub q = some c0 ∨
     (∃ l, (t.clients i).listing = some l ∧ l q = some (hash c0)) ∨
-    (∃ c, hget (step hash cname t i).hub q = some c ∧ hash c = hash c0) := by
-  intro t
-  obtain ⟨hcc', _⟩ := run_ccInv hash cname cinj pre s hcc hnp
-  rcases step_overwrites_only_listed hash cname t i q c0 h with h1 | ⟨l, k, c, rest, hl, hf, h2 | h2⟩
-  · exact Or.inl h1
-  · right; left; exact ⟨l, hl, by rw [h2.1]; exact h2.2.1⟩
-  · right; right
-    refine ⟨c, h2.2, ?_⟩
-    have := hcc' k (hash c) c0 (by rw [← h2.1]; exact h)
-    exact this.symm
+    (∃ c, hget (step hash cname t i).hub q = some c ∧ hash c = hash c0) :=
+  step_overwrites_only_listed hash cname cfree (run hash cname s pre) i q c0 h
 
-/-- non-vacuity: two clients with one shared path, the second lists before the first commits (stale) -/
+/-- the hub's own choice (first free or same-content `-N` name) is `CFree` whenever it finds a name within its fuel;
+here for the naming the driver uses, on the trees of the non-vacuity example -/
 example : let hash : Bytes → Nat := fun b => b.foldl (· + ·) 0
-          let cname : Key → Nat → Key := fun k h => k ++ [("conflict-" ++ toString h).toList]
+          let cname : HTree → Key → Nat → Key := fun _ k h => k ++ [("conflict-" ++ toString h).toList]
           let c0 : Client Nat := { files := [([['f']], [1])], listing := none }
           let c1 : Client Nat := { files := [([['f']], [2])], listing := none }
           let s : Sys Nat := { hub := [], clients := fun i => if i = 0 then c0 else c1 }
